@@ -40,7 +40,11 @@ Valid(D) == \A f \in FileNames : LET ks == KS(D, f) IN
 
 (* ---- units offered by iter_shelvable, and the atoms a selection takes out of the tree *)
 Unit(x) == IF x.k \in Gone THEN At(x.f, "del") ELSE IF x.k = "addx" THEN At(x.f, "add") ELSE x
-Units(D) == UNION {LET ks == KS(D, f) IN
+\* iter_shelvable offers "modify target" for EVERY reported change of something that stays a symlink, also when only
+\* its path changed: a unit that shelves nothing
+NullUnits(D) == IF KS(D, "l") \cap (Gone \cup {"kind", "tgt"}) = {} /\ KS(D, "l") # {} THEN {At("l", "tgt")} ELSE {}
+Units(D) == NullUnits(D) \cup
+            UNION {LET ks == KS(D, f) IN
                    IF ks \cap Gone # {} THEN {At(f, "del")}
                    ELSE {Unit(At(f, k)) : k \in ks \ {"exec"}} : f \in FileNames}
 \* an edit of an unversioned (kept) file is invisible to iter_changes: only the deletion can be shelved
@@ -81,7 +85,7 @@ LawShelveExact(c, o) == Same(o.mid, Kept(D_(c), S_(c)))
 \* unshelving onto the unchanged result restores content and versioning
 LawUnshelveRestores(c, o) == S_(c) # {} => (o.post = o.pre /\ Same(o.post, D_(c)))
 \* selecting nothing shelves nothing
-LawNothing(c, o) == S_(c) = {} => (o.mid = o.pre /\ ~o.shelved)
+LawNothing(c, o) == (S_(c) = {} => ~o.shelved) /\ (S_(c) \subseteq NullUnits(D_(c)) => o.mid = o.pre)
 LawNames == <<"shelve-exact", "unshelve-restores", "nothing">>
 Law(n, c, o) == CASE n = "shelve-exact" -> LawShelveExact(c, o) [] n = "unshelve-restores" -> LawUnshelveRestores(c, o)
                   [] n = "nothing" -> LawNothing(c, o)
